@@ -278,7 +278,9 @@ def run(ctx, pid):
     elif pid == "C21":
         z = {0: 0, 1: 0, 2: 0, 3: 0}
         pres = {"storage": dict(ex=True, bal=0, nonce=0, stor={0: 0, 1: 5, 2: 0, 3: 0}),
-                "nonce": dict(ex=True, bal=0, nonce=1, stor=z), "balance": dict(ex=True, bal=2, nonce=0, stor=z)}
+                "nonce": dict(ex=True, bal=0, nonce=1, stor=z), "balance": dict(ex=True, bal=2, nonce=0, stor=z),
+                # storage without any account record (the database answers None for the account, yet owns slots)
+                "storage_noinfo": dict(ex=False, bal=0, nonce=0, stor={0: 0, 1: 5, 2: 0, 3: 0})}
         for f in rot(["PETERSBURG", "LONDON", "CANCUN", "PRAGUE"], 1 if q else 4):
             for pn, pre in pres.items():
                 # (a plain call follows the create: its callback depth shows whether the rejected create gave its
@@ -286,6 +288,11 @@ def run(ctx, pid):
                 r = planned("c21_%s_%s" % (f, pn), f, [193, 194], [(193, ["createS"]), (193, ["call194"])], targets=[193, 0],
                             tokens={1000000001: pre})
                 for db in ("state", "cachedb", "cachedb_ins", "state_nobundle"):
+                    # slots without an account record cannot exist in a state trie; the only carrier the property
+                    # names is storage *inserted into the caching database* (CacheDB::insert_account_storage on a
+                    # fresh address: basic() answers None, the slots are there)
+                    if pn == "storage_noinfo" and db != "cachedb_ins":
+                        continue
                     replay(ctx, res, r, "c21_%s_%s" % (f, pn), binary, db=db)
             # the target is first touched / funded by a committed transaction, then created onto
             # (the address token of 193's next CREATE exists from the start)
